@@ -5,6 +5,8 @@ mod transport;
 mod worker;
 
 pub use environment::{Environment, EnvironmentError, RequestResult};
+#[cfg(feature = "verif")]
+pub use environment::VerifEnvironmentView;
 pub use messages::{Command, Event, SubscriptionKind, SubscriptionPayload};
 pub use repl::{Repl, ReplError};
 pub use transport::{CommandReceiver, EventSender, WorkerHandle};
